@@ -67,6 +67,16 @@ func Type(y *yang.YangType) *yref.XType {
 	}
 	if y.IdentityBase != nil {
 		x.IdentityBase = OwnerName(y.IdentityBase) + ":" + y.IdentityBase.Name
+		if r := yang.RootNode(y.IdentityBase); r != nil {
+			x.IdentityBaseIn = r.FullName()
+		}
+		for _, v := range y.IdentityBase.Values {
+			n := v.Name
+			if r := yang.RootNode(v); r != nil {
+				n = r.FullName() + ":" + n
+			}
+			x.IdentityValues = append(x.IdentityValues, n)
+		}
 	}
 	for _, u := range y.Type {
 		x.Union = append(x.Union, Type(u))
